@@ -360,7 +360,7 @@ fn call_spec_strategy() -> impl Strategy<Value = CallSpec> {
         .prop_map(|(kind, k, err, explicit_false, pad)| CallSpec { kind, k, err, explicit_false, pad })
 }
 
-fn case_strategy() -> impl Strategy<Value = Case> {
+pub fn case_strategy() -> impl Strategy<Value = Case> {
     (
         prop::collection::vec(call_spec_strategy(), 1..=6),
         0u8..=2,
@@ -444,6 +444,11 @@ pub fn run(ctx: &Ctx) -> i32 {
     });
     stats.merge(s2);
     viol.extend(v2);
+    crate::fuzzrun::golden("chain_rx", &mut stats, &mut viol);
+    if ctx.tier == vcommon::ev::Tier::Thorough {
+        let seeds: Vec<Vec<u8>> = (0..32u8).map(|i| (0..(8 + i as usize * 7)).map(|k| (k as u8).wrapping_mul(29).wrapping_add(i.wrapping_mul(13))).collect()).collect();
+        crate::fuzzrun::campaign(ctx, "chain_rx", crate::fuzzrun::fuzz_secs(180), &seeds, &mut stats, &mut viol);
+    }
     Report::new(RULE)
         .assume("reference classification of a reply frame: serde_json::from_slice of the caller's types combined by the rules of C04")
         .assume("server scripts are conforming: one final reply per non-oneway call, continues:true only for `more` calls")
@@ -452,6 +457,9 @@ pub fn run(ctx: &Ctx) -> i32 {
 }
 
 pub fn replay(_lane: &str, case: serde_json::Value) -> CaseResult {
+    if _lane == "fuzz" {
+        return crate::fuzzrun::replay(&case);
+    }
     let case: Case = serde_json::from_value(case).map_err(|e| Fail::new("bad-replay", e.to_string()))?;
     let run = run_case(&case);
     println!("calls: {:?}", case.calls);
